@@ -152,6 +152,10 @@ def normalize(run):
 def compare(words, triple, run):
     """None if the run conforms to drvref, else (family key, explanation)."""
     exp = drvref.model(words, triple)
+    # unconditional, whatever the documentation leaves open for this command line: the driver never deletes one of its inputs
+    for v in run['viols']:
+        if 'I6:' in v:
+            return ('world/input-file-deleted', v)
     if exp[0] == 'ambiguous':
         return 'ambiguous'
     if run['viols']:
